@@ -371,6 +371,40 @@ for _p, (_old, _new) in CLAIM_UPDATES.items():
     PROPERTIES[_p]["claim"] = PROPERTIES[_p]["claim"].replace(_old, _new)
 
 
+# sentences appended to the claims for obligations added in the later rounds (seeded changes / mutation sweep)
+CLAIM_ADDENDA = {
+    "C01": " Every engine-N obligation has a bounded native twin (real arrays, two k-points with weights 0.3 / 0.7) run on every check; the band-energy stand-ins use one and two spin channels.",
+    "C02": " Also: get_exc / get_vxc forward every argument to get_xc and return the matching outputs (forwarding contract on the AST); no functional writes to its input arrays "
+           "(writes-frame on the AST); finiteness at zeta = +-1 also with a non-zero gradient in the empty channel (GGAs). An identity that stays undecided within the budget is additionally "
+           "evaluated natively on a fixed scan: only a failing point changes the verdict (to refuted), a pass leaves it undecided.",
+    "C03": " Every engine-N obligation has a bounded native twin on real objects (triclinic cell, anisotropic sampling, two weighted k-points).",
+    "C04": " The symbolic instance is also run with exactly empty states below occupied ones; bounded native twins (scale invariance of orth from 1e-9 to 1e4, badly conditioned W, tiny-norm unoccupied sets).",
+    "C05": " Bounded: Hermiticity of the ionic part alone on a coarse even grid; unoccupied eigenvalues for identical fillings with different orbitals per spin; native twins with unequal k-point weights.",
+    "C06": " Bounded: Ylm_real on axis / plane directions (the Gx = 0 branch: continuity and the addition theorem for all pairs), systems with non-local projectors of two species, "
+           "moves of one atom by several lattice vectors, rotated copies.",
+    "C07": " Bounded: a k-point of weight 3/4 equals the same k-point three times with weight 1/4 (every energy contribution incl. the band energy; PBE and, with PySCF, TPSS: the kinetic "
+           "energy density carries the weights), kinetic energy from cut-off vs zero-padded full-basis coefficients at k != 0.",
+    "C08": " The swap symmetry is also evaluated AT the fully polarised points per functional (open finding: the thermal LDAs); the closed-shell stand-in runs ten exchange / correlation pairs "
+           "through get_xc on a system with non-local projectors.",
+    "C10": " Bounded: the Ewald energy stored by an SCF object is the lattice sum of its CURRENT geometry after the atoms were replaced; left-handed lattice-vector orders; skewed lower-triangular cells.",
+    "C12": " The local potential is traced for three atoms of two species with symbolic structure factors (sum over atoms of form factor x structure factor); read_gth raising on a bundled file is a violation.",
+    "C13": " fill(f) with explicit scalar fillings 2/3, 3/2, 5/4, 3/4 (open findings for f < 1 with two spin channels); every path of get_Efermi with a positive width reaches the root finder. "
+           "Bounded: smear() through the real root finder for widths 1e-3 .. 2 (sum, range, fillings = Fermi function at the returned level); float64 scan of the entropy term.",
+    "C14": " lm / cg are the unpreconditioned calls of pclm / pccg (wrapper contracts); with gradtol the converging path checks the gradient norms. Bounded: same minimum from two systems "
+           "(one with two spin channels and weighted k-points), k-point / spin-channel equivariance of every scheme (open finding: first iteration on a fresh object), "
+           "converged energy of auto vs the other schemes from the pseudo-random start (open finding: premature convergence).",
+    "C15": " Bounded: six mutation histories of a KPoints object (trs() then a new mesh, weights set by hand then a new mesh, mesh mode then Nk and path, mesh - path - mesh, shift after trs(), Nk changed after a path) equal a fresh object with the same final inputs.",
+    "C16": " Bounded: Fermi orbitals for non-uniform fillings; the orbital wrappers of eminus/orbitals.py localise the CURRENT coefficients of the SCF object.",
+    "C17": " Bounded: CUBE files with FODs and trailing lines; Gamma-only restart (lists of one array).",
+    "C19": " Bounded histories: Atoms setters (a, ecut, s, pos) with custom k-points, recenter / set_k helpers, SCF histories (pot_params set / reset, geometry replaced between two runs, "
+           "recenter of a converged run by a grid vector) equal fresh objects with the same final inputs.",
+    "C20": " Bounded: seeded guesses for seeds 0, 1, 11, 2^40 + 3 depend on the seed and the basis size only (native twins); open-shell Fermi orbitals under NaN poison; an undecided "
+           "coverage VC of an allocation site that is not in the baseline is reported (exit 2).",
+}
+for _p, _add in CLAIM_ADDENDA.items():
+    PROPERTIES[_p]["claim"] = PROPERTIES[_p]["claim"].rstrip() + _add
+
+
 def _native_twins(prop):
     """Every symbolic obligation of engines N / A that carries a native evaluation of the same contract (used as its replay) also gets a BOUNDED
     twin that runs that evaluation on every run: the symbolic proof takes the object's tables (|G|^2, masks, volume, real potentials ...) by state
